@@ -1,4 +1,5 @@
 import inspect
+import json
 from utype.parser.rule import Rule, LogicalType, SEQ_TYPES, MAP_TYPES
 from utype.parser.field import ParserField
 from utype.parser.cls import ClassParser
@@ -8,6 +9,7 @@ from utype.parser.base import Options
 from typing import Optional, Type, Union, Dict
 from utype.utils.datastructures import unprovided
 from utype.utils.compat import JSON_TYPES, ForwardRef, evaluate_forward_ref
+from utype.utils.encode import JSONEncoder
 from enum import EnumMeta
 from . import constant
 
@@ -200,6 +202,9 @@ class JsonSchemaGenerator:
                 # utype matches the whole value, a JSON Schema pattern is searched for: anchor it
                 if not (value.startswith('^') and value.endswith('$')):
                     value = f'^(?:{value})$'
+            elif type(value) not in JSON_TYPES:
+                # bounds like datetime / timedelta / Decimal: emit their JSON encoding
+                value = json.loads(json.dumps(value, cls=JSONEncoder))
             data[constraint_name] = value
 
         extra = getattr(t, 'extra', None)
